@@ -4,8 +4,10 @@ PROP = {'assumptions': ['Messages are C01-well-formed, within the nesting limit,
                  'zlib is an opaque pair of functions with inflate(deflate(x)) = x (CodecOK)',
                  'text lines contain no CR/LF/NUL; one terminator (CR LF, LF or CR) per stream',
                  'a raw/SLIP chunk without bytes contributes nothing (the SLIP decoder drops empty frames: the SLIP unit is the non-empty chunk)',
-                 'the link ends drained (grants suffice); both templating ends use the same cache size',
-                 'WebSocket payloads up to the receiver limit of 10 MB (a bigger Message cannot cross a WebSocket link: open finding C03-ws-10mb)'],
+                 'WebSocket payloads up to the receiver limit of 10 MB (a bigger Message cannot cross a WebSocket link: open finding C03-ws-10mb)',
+                 'both templating ends are configured with the same maxLRUCacheSizeBytes and start with empty caches',
+                 'the outgoing zlib level of a templating gateway is not changed from one zlib level to another mid-stream (open finding '
+                 'C03-tmpl-zlib-level-switch)'],
  'engine': 'gw',
  'harnesses': [{'cflags': ['-std=gnu++11',
                            '-O1',
@@ -25,7 +27,9 @@ PROP = {'assumptions': ['Messages are C01-well-formed, within the nesting limit,
          'text, raw, SLIP, WebSocket client->server and server->client with slave gateway and the HTTP handshake whole / in halves / cut at any byte / byte by '
          'byte, C mini/micro <-> C++) under one schedule (per call: maxBytes and the byte count of every Read/Write, 0 = would block; any interleaving of '
          'queueing/output/input), then drained; plus `wire` (sender bytes), `feed` (arbitrary bytes into a receiver) and `share` (one reuse-tagged Message on '
-         'two links, every encoding) and `bigws` (one Message of a given size through a WebSocket pair).  The Lean model executes the same schedule step by '
+         'two links, every encoding) and `bigws` (one Message of a given size through a WebSocket pair) and `tcache` (templating pairs with cache limits that '
+         'hold 1-4 templates and LRU-sensitive layout orders: the frame form the real sender chooses for every Message - create / payload-only / plain, read '
+         'off the wire - must be what the model of the two caches predicts, and everything must arrive).  The Lean model executes the same schedule step by '
          'step for binary/text/raw/SLIP (state after the scheduled part, deliveries, error flag must agree), predicts deliveries and wire bytes for the rest.  '
          'Direct oracle on every run op: delivered units = sent units by flattened bytes, no receiver error, link drains.  distinct = distinct case bodies',
  'trusted_base': ['hand-written Lean model of Message::Flatten/Unflatten/FlattenedSize and the public mutators (lean/MuscleModel/Wire)',
@@ -40,14 +44,18 @@ PROP = {'assumptions': ['Messages are C01-well-formed, within the nesting limit,
                   'and std::random_device are not modelled.  For the zlib encodings, the templating gateway, the WebSocket gateways and the C mini/micro '
                   'gateways the model predicts the final deliveries (= the units sent, by the theorems), the wire bytes where deterministic, and for WebSocket '
                   'receivers what a clean frame sequence (masked or not) delivers; their call-by-call segmentation behaviour is checked by the direct oracle '
-                  'on the real code']}
+                  'on the real code',
+                  'hand-written Lean model of the template-cache protocol of TemplatingMessageIOGateway (both ends: LRU order, byte tally, TrimLRUCache, frame '
+                  'form chosen) over template ids, template sizes and layouts that the harness computes with the real code and re-checks on every run '
+                  '(lean/MuscleModel/Gateway/Templating.lean)']}
 
 TEXT = {'design_ref': 'DESIGN.md section 4, C03',
- 'note': 'Not proved, only validated by correspondence/oracle: history dependence of the zlib streams, templating cache protocol (incl. layouts whose template '
-         'ids collide), WebSocket receive loop and handshake, C gateway call loops.  Hypotheses explicit in the statements (frameOKZ, CodecOK, clean lines, '
-         'drained link).  Open finding kept as corpus/C03/gw-known-ws-10mb.ops and listed in known_findings.json: C03-ws-10mb (a Message above 10 MB cannot '
-         'cross a WebSocket link).  Fixed and guarded by corpus/C03/gw-regress-*.ops and mutants/C03/r*.diff: F24, WebSocket client mask byte order, WebSocket '
-         'handshake under a would-block, F7 (template id collision), C03-empty-chunk.',
+ 'note': 'Not proved, only validated by correspondence/oracle: history dependence of the zlib streams, the templated payload codec '
+         '(TemplatedFlatten/TemplatedUnflatten), WebSocket receive loop and handshake, C gateway call loops.  Hypotheses explicit in the statements (frameOKZ, '
+         'CodecOK, clean lines, drained link, equal cache limits).  Open findings kept as corpus/C03/gw-known-*.ops and listed in known_findings.json: '
+         'C03-ws-10mb (a Message above 10 MB cannot cross a WebSocket link), C03-tmpl-zlib-level-switch (templating receiver fails after the sender changes '
+         'its zlib level).  Fixed and guarded by corpus/C03/gw-regress-*.ops and mutants/C03/r*.diff: F24, WebSocket client mask byte order, WebSocket '
+         'handshake under a would-block, F7, C03-empty-chunk.',
  'technique': 'Lean 4 theorems (receiver state is a function of the consumed byte prefix for every maxBytes/grant schedule; any input chunking gives the same '
               'units; any short-write schedule emits the same bytes; any interleaving; frame round trips plain and zlib-flagged over an opaque codec; '
               'text-line, SLIP and WebSocket frame/mask/length round trips) over a hand-written model of the gateway call loops + differential correspondence '
@@ -59,8 +67,9 @@ TEXT = {'design_ref': 'DESIGN.md section 4, C03',
          'gateway (header/body state machine with the scratch-buffer branch; frames plain or zlib-flagged for any codec with inflate(deflate x)=x; with C01: '
          'drained link => delivered = sent Messages, receiver idle), the text gateway (line splitter under any chunking, CR/LF/CRLF across reads, sender '
          'within its recursion limit; drained => delivered lines = sent lines), the raw gateway (both receive modes) and the SLIP gateway (escape/unescape '
-         'round trip for all byte strings, END/ESC state across reads; drained => delivered frames = sent chunks); WebSocket frame kernels: mask involution '
-         'for all keys, the three length encodings, server and client frame encode/decode.  The same definitions are executed by the model driver against the '
-         'real C++ gateways under explicit schedules; a direct oracle (delivered units = sent units by flattened bytes, no error, link drains) runs on the '
-         'real code for every gateway kind incl. the 10 encodings, templating, WebSocket in both directions with slave gateway and split handshakes, and the C '
-         'mini/micro gateways.'}
+         "round trip for all byte strings, END/ESC state across reads; drained => delivered frames = sent chunks); templating gateway: both ends' template "
+         'caches stay in lock-step (same ids, layouts, sizes, recency order, tally) after every Message of any sequence, hence every payload-only Message '
+         'finds its template; WebSocket frame kernels: mask involution for all keys, the three length encodings, server and client frame encode/decode.  The '
+         'same definitions are executed by the model driver against the real C++ gateways under explicit schedules; a direct oracle (delivered units = sent '
+         'units by flattened bytes, no error, link drains) runs on the real code for every gateway kind incl. the 10 encodings, templating, WebSocket in both '
+         'directions with slave gateway and split handshakes, and the C mini/micro gateways.'}
